@@ -593,10 +593,10 @@ def availableAppBox (w : World) (cx : Ctx) (k : BoxKey) (op : BoxOp) (createSize
   if cx.f.oc = 3 then (cx.res, .deny .clearbox) else
   let r := cx.res
   let found := boxGet r.boxes k
-  let newApp := found.isNone && r.createdApps.contains k.1
-  let viaSlot := newApp && decide (r.unnamedAccess > 0)
+  let newApp : Bool := found.isNone && r.createdApps.contains k.1
+  let viaSlot : Bool := newApp && decide (r.unnamedAccess > 0)
   let r := if viaSlot then { r with unnamedAccess := r.unnamedAccess - 1 } else r
-  let viaPolicy := match cx.policy with | some p => p.boxes.contains k | none => false
+  let viaPolicy : Bool := match cx.policy with | some p => p.boxes.contains k | none => false
   if found.isNone ∧ ¬ viaSlot ∧ ¬ viaPolicy then (r, .deny .nobox) else
   let dirty := match found with | some d => d | none => false
   match authorizeBoxAccess w cx k.1 op with
@@ -661,7 +661,7 @@ def enter (group : List Txn) (w : World) (res? : Option Res) (policy : Option Po
   let w := { w with ioBudget := io }
   let bytesRead := ((boxKeys r.boxes).filter (fun k => k.2 ≠ "")).foldl
     (fun acc k => match w.boxSize k with | some s => acc + s | none => acc) 0
-  let deficitOk := match policy with | some p => p.allowDeficit | none => false
+  let deficitOk : Bool := match policy with | some p => p.allowDeficit | none => false
   if bytesRead > io ∧ ¬ deficitOk then (w, r, some .rbudget)
   else ({ w with readChecked := true }, r, none)
 
